@@ -184,6 +184,11 @@ func (fx *FX) enterLoop(fr *frame, li *loopInfo, b *ssa.BasicBlock, ins []*State
 		g := fx.evalBool(env, cl.Expr)
 		fx.oblige(entry, "inv-init", fmt.Sprintf("%s.init#%d%s", label, j+1, lbl(cl)), cl.Text, g, b.Instrs[0].Pos(), cl.Props)
 	}
+	// entry clauses: facts about the state in which the loop is first reached (checked here, not invariants)
+	for j, cl := range fx.loopClauses(fr, li, "entry") {
+		g := fx.evalBool(env, cl.Expr)
+		fx.oblige(entry, "inv-init", fmt.Sprintf("%s.entry#%d%s", label, j+1, lbl(cl)), cl.Text, g, b.Instrs[0].Pos(), cl.Props)
+	}
 	// auto invariants for range index
 	autoInv := fx.autoInvariants(fr, b)
 	// what does the loop write?
